@@ -34,6 +34,7 @@ import (
 
 	"github.com/go-shiori/dom"
 	"github.com/markusmobius/go-domdistiller/data"
+	"github.com/markusmobius/go-domdistiller/internal/domutil"
 	"golang.org/x/net/html"
 )
 
@@ -154,7 +155,7 @@ func (ps *Parser) findPrefixes(root *html.Node) {
 func (ps *Parser) parseMetaTags(root *html.Node) {
 	// Fetch meta nodes. All of them: the names in a property attribute are
 	// not always the first thing in it (see below).
-	metaNodes := dom.QuerySelectorAll(root, "meta[property]")
+	metaNodes := domutil.WithoutTemplateContent(dom.QuerySelectorAll(root, "meta[property]"))
 
 	// The profile and article properties are only used for objects of that type,
 	// and the tags of a page come in any order: look up the type of the object
